@@ -151,7 +151,7 @@ pub fn dump_program(pid: usize, modes: &[RealMode], origin: &str) -> Result<Opti
         parsed.push(ps);
     }
     scnr::verif::minimizer_recording(true);
-    let sm = crate::parse::to_scanner_modes(modes);
+    let sm = crate::parse::to_scanner_modes_raw(modes);
     let built = std::panic::catch_unwind(|| ScannerBuilder::new().add_scanner_modes(&sm).build_uncached());
     let records = scnr::verif::take_minimizer_records();
     scnr::verif::minimizer_recording(false);
@@ -419,7 +419,7 @@ pub fn main(args: &[String]) -> i32 {
                     skipped.fetch_add(1, std::sync::atomic::Ordering::SeqCst);
                 }
                 Err(e) => problems.lock().unwrap().push(json!({"program": k + 1, "origin": progs[k].0,
-                    "modes": crate::record::describe_modes(&progs[k].1), "problem": e})),
+                    "modes": crate::record::describe_modes_raw(&progs[k].1), "problem": e})),
             }
         }));
     }
@@ -429,7 +429,7 @@ pub fn main(args: &[String]) -> i32 {
     let mut res = std::mem::take(&mut *results.lock().unwrap());
     res.sort_by_key(|r| r.0);
     let cases: Vec<Value> = res.into_iter().flat_map(|r| r.1).collect();
-    let programs: Vec<Value> = progs.iter().enumerate().map(|(k, p)| json!({"program": k + 1, "origin": p.0, "modes": crate::record::describe_modes(&p.1)})).collect();
+    let programs: Vec<Value> = progs.iter().enumerate().map(|(k, p)| json!({"program": k + 1, "origin": p.0, "modes": crate::record::describe_modes_raw(&p.1)})).collect();
     std::fs::write(format!("{out}/cases.json"), serde_json::to_string(&cases).unwrap()).unwrap();
     std::fs::write(format!("{out}/programs.json"), serde_json::to_string(&programs).unwrap()).unwrap();
     let problems = problems.lock().unwrap().clone();
